@@ -22,6 +22,7 @@ class Gen:
         if len(self.fn.params) < 2:
             raise AnalysisError(f"{qualname} no longer takes (self, jds)")
         self.jds = self.fn.params[1]
+        self.build_loop = None      # set when the stub lists are accumulated by a loop instead of a comprehension
         self.stubs, self.stubs_def = self._find_stubs()
         self.edgelist = self._find_edgelist()
 
@@ -36,6 +37,16 @@ class Gen:
                 if any(isinstance(n, ast.Call) and txt(n.func) == "zip" and len(n.args) == 1 and isinstance(n.args[0], ast.Starred)
                        and txt(n.args[0].value) == self.jds for n in ast.walk(st.value)):
                     cands.append((name, st))
+        if not cands:
+            # the same construction written out as an accumulation loop:  stubs = []; for r in ..zip(*jds)..: stubs.append(..)
+            for name in list(self.sc.assigns):
+                comp = rules.as_comprehension(self.sc, name)
+                if comp is not None and any(isinstance(n, ast.Call) and txt(n.func) == "zip" and len(n.args) == 1 and isinstance(n.args[0], ast.Starred)
+                                            and txt(n.args[0].value) == self.jds for n in ast.walk(comp.generators[0].iter)):
+                    st0 = self.sc.assigns[name][0]
+                    synth = ast.copy_location(ast.Assign(targets=[ast.Name(id=name, ctx=ast.Store())], value=comp, lineno=st0.lineno, col_offset=st0.col_offset), st0)
+                    self.build_loop = self.par.loops_of(self.sc.mutated[name][0])[0]
+                    return name, synth
         if len(cands) != 1:
             raise AnalysisError(f"{self.fn.qualname}: expected one stub-list construction over zip(*{self.jds}), found {len(cands)}")
         name, st = cands[0]
@@ -53,7 +64,7 @@ class Gen:
     def stub_loops(self):
         out = []
         for n in astx.walk_fn(self.fn.node):
-            if not isinstance(n, ast.For):
+            if not isinstance(n, ast.For) or n is self.build_loop:
                 continue
             it = n.iter
             if isinstance(it, ast.Name) and it.id == self.stubs and isinstance(n.target, ast.Name):
@@ -74,6 +85,10 @@ class Gen:
                     and isinstance(n.target, ast.Name):
                 out.append((n, "index", None, n.target.id))
         return out
+
+    def in_build(self, node) -> bool:
+        """node belongs to the construction of the stub lists (not an effect on the finished lists)"""
+        return self.build_loop is not None and self.par.inside(node, self.build_loop)
 
     def shuffle_calls(self):
         """[(call, arg)] for calls resolving to random.shuffle."""
